@@ -192,6 +192,23 @@ pub fn run_fuzz(seed: u64, thorough: bool) -> SOut {
         out.distinct += 1;
         check_all_entry_points(&s, &km, &mut out, &json!({"unicode": i}), false);
     }
+    // multi-byte characters placed at and around every byte offset of the header (a character
+    // that straddles a fixed byte offset is a classic slicing panic)
+    for pr in Proto::all() {
+        let h = pr.header();
+        for ch in ["é", "€", "😀", "\u{80}", "\u{7ff}"] {
+            for off in 0..=h.len() + 2 {
+                let prefix: String = if off <= h.len() { h[..off].to_string() } else { format!("{}{}", h, "A".repeat(off - h.len())) };
+                for tail in [".AAAA", ".AAAA.", ".AAAA.a2lkLTE", "AAAA", ".y.z"] {
+                    for dotted in [true, false] {
+                        let s = if dotted { format!("{}{}{}", prefix, ch, tail) } else { format!("{}{}{}", prefix.replace('.', "a"), ch, tail) };
+                        out.distinct += 1;
+                        check_all_entry_points(&s, &km, &mut out, &json!({"multibyte_at": off, "char": ch, "text": s}), false);
+                    }
+                }
+            }
+        }
+    }
     // empty segments, runs of dots, 1 MiB inputs
     let mut specials: Vec<String> = (0..8).map(|k| ".".repeat(k)).collect();
     for pr in Proto::all() {
